@@ -331,6 +331,7 @@ func checkC32(c *Ctx) string {
 	c.Floor(r3, ncap, 1, "captures of Lexer.si before the first read")
 	c.Stats["item_literals"] = nlit
 	c.Stats["functions_reachable_from_next"] = len(order)
+	checkReadAdvances(c, "C32.4 K4 read consumes the byte it returns")
 	return "Decided for compile/lexer: every return of (*Lexer).next is preceded on all paths by a call of read(); a return that is not on an edge where the byte returned by read() differs from the constant eof " +
 		"(switch case or comparison, constants by value) can only produce tok.Eof, and tok.Eof is produced only on the byte==eof edge; the Pos of every Item literal in next, its closures and the package functions reachable from it " +
 		"is (through integer conversions, single-definition locals and parameters at all call sites) the local captured from Lexer.si before the first read and before any store to Lexer.si, and that local is assigned once; " +
